@@ -94,10 +94,12 @@ type Transport struct {
 	ShortReturn                string // "", "full", "half", "one", "random"
 	ShortReturnSeed            int64  // seed of the "random" policy
 	ExtendedLength             bool   // false: extended length commands get 6700
+	LengthErrorKeepsSession    bool   // an extended-length command sent to a chip without extended length support is refused (6700, unprotected) by the transport layer BEFORE secure messaging is processed: the session and its counter are untouched (what the Le fall-back of readers is written for). false: the refusal counts as a secure messaging error and deletes the session
 	HeaderReadShort            int    // at most this many octets for a read at offset 0 with Ne = 4; 0 = no limit
 	WarnEOF                    bool   // answer 6282 instead of 9000 when fewer than Ne octets were available
 	AllowOversizeShortResponse bool   // answer with more than 256 response octets to a short-length command instead of 6700
 	PlainInSMStatus            uint16 // status for a plain command received while SM is active (session is deleted in any case); 0 = process the command in plain
+	DO85PaddingIndicator       bool   // odd-INS commands/responses carry the padding-content indicator 01 inside DO'85' too (the form gmrtd and property C10 use), instead of the ISO 7816-4 form without it
 	SelectRequiresAuth         bool   // SELECT EF inside the application answers 6982 before access control (instead of READ BINARY only)
 }
 
@@ -167,6 +169,11 @@ type Config struct {
 
 	Transport   Transport
 	Personality Personality
+
+	// Handler, when set, is asked first for every command the chip executes (after secure messaging
+	// was verified and removed): if it returns handled = true the chip answers (data, sw) instead of
+	// running its own command logic. Used by the harness to script arbitrary command/response shapes.
+	Handler func(cmd PlainCmd) (data []byte, sw uint16, handled bool) `json:"-"`
 
 	Rand         io.Reader        `json:"-"` // all chip randomness; nil = crypto/rand
 	ChooseScalar ChooseScalarFunc `json:"-"`
